@@ -313,10 +313,10 @@ func (w *World) doAdmin(t *Task) {
 				gone := node["uuid"]
 				def["nodes"] = append(append([]any{}, nodes[:ni]...), nodes[ni+1:]...)
 				for _, n := range def["nodes"].([]any) {
-					nj, _ := asJ(n)
+					nj := asJ(n)
 					exits, _ := nj["exits"].([]any) // (an earlier edit may have left a node without exits)
 					for _, ex := range exits {
-						if ej, _ := asJ(ex); ej != nil && ej["destination_uuid"] == gone {
+						if ej := asJ(ex); ej["destination_uuid"] == gone {
 							delete(ej, "destination_uuid")
 						}
 					}
